@@ -465,7 +465,37 @@ def structured_malformed(rng, count):
         out.append(G.serialize(cat, G.gen_layout(rng)))
     return out
 
-def run_parse_stream(chk, name, datas, encodings=(None,)):
+TIE_MODULE = 'I18n.Props.C08Tie'
+
+def prove(chk, module):
+    """The proof side of C08/C09: (1) the property's theorems about the model `Mo.parse`; (2) the tie: regenerate
+    Generated/MoParser.lean from the CURRENT lib/moparser.py (tools/translate/mo2lean.py), rebuild, and check the
+    kernel proof that the regenerated parser equals the model (Props/C08Tie.lean: generated_parse_eq_model and the
+    headline theorems restated about the regenerated definition).  A source change outside the translator's subset
+    (exit 3, `untranslatable`) or one that breaks the equality proof lands in chk.broken, never skipped.
+    Sets chk.generated_ok (is the driver's `gparse` op in step with the current source?)."""
+    ok = chk.prove(module, generated=('mo',), extra_targets=())
+    tie = common.lean_check(TIE_MODULE, generated=(), extra_targets=('driver',), leanchecker=chk.thorough)
+    tr = chk.lean.translation.get('mo', '')
+    tie_ok = tie.ok and not tr.startswith('untranslatable')
+    lean = chk.lean
+    lean.obligations += tie.obligations
+    lean.discharged += tie.discharged if tie_ok else 0
+    lean.theorems = list(lean.theorems) + list(tie.theorems)
+    lean.axioms.update(tie.axioms)
+    if not tie.ok:
+        lean.problems = list(lean.problems) + [TIE_MODULE + ': ' + p for p in tie.problems]
+        chk.broken.append({'kind': 'proof', 'module': TIE_MODULE, 'translation': tr, 'problems': tie.problems,
+                           'meaning': 'the parser regenerated from the current lib/moparser.py is no longer proved equal to the model Mo.parse '
+                                      '(generated_parse_eq_model and its corollaries)'})
+    chk.coverage['tie'] = {'module': TIE_MODULE, 'translator': 'tools/translate/mo2lean.py', 'translation': tr, 'checked': tie_ok,
+                           'theorems': tie.theorems, 'problems': tie.problems[:8]}
+    chk.generated_ok = tie_ok
+    return ok and tie_ok
+
+def run_parse_stream(chk, name, datas, encodings=(None,), generated=True):
+    """the real parser against the hand-written model (`mo parse`) and, on the same inputs, against the definition
+    regenerated from the source (`mo gparse`, stream `<name>-generated`: exercises the translator's semantics kit)"""
     lines, outs, kept = [], [], []
     skipped = 0
     for data in datas:
@@ -479,6 +509,9 @@ def run_parse_stream(chk, name, datas, encodings=(None,)):
             kept.append(data)
     dis, model = chk.stream(name, lines, outs)
     chk.coverage['streams'][name]['skipped_unmodelled_codec'] = skipped
+    if generated and getattr(chk, 'generated_ok', False):
+        gdis, _ = chk.stream(name + '-generated', [l.replace('mo parse ', 'mo gparse ', 1) for l in lines], outs)
+        dis = sorted(set(dis) | set(gdis))
     return dis, outs, kept
 
 def run_check_stream(chk, name, datas):
